@@ -10,6 +10,7 @@ CONSTANTS
   NBackoff = 1
   MaxExpire = 0
   MaxRounds = 1
+  SameIsIdentical = TRUE
   Variant = "bykey"
   Mode = "conn"
   LoginOutcomes <- FreshOnly
